@@ -8,6 +8,7 @@ package kcp
 //      encMu/decMu; TimedSched.prependTasks under prependLock
 //   G3 deadlines, rate limiter, OOB callback, socket errors, SNMP counters: atomics only
 //   G4 fields fixed at construction (conv, headerSize, remote, conn, block, l, fecEncoder): never written
+//   G5 the FEC encoder's state: touched only inside postProcess (goroutine confinement)
 
 import (
 	"crypto/cipher"
@@ -20,6 +21,7 @@ func vfGuardRW(name string, lock any, roots ...any) {}
 func vfGuardNoWrite(name string, roots ...any)      {}
 func vfGuardAtomic(name string, roots ...any)       {}
 func vfGuardStop(objs ...any)                       {}
+func vfGuardConfined(name, owner string, roots ...any) {}
 func vfMonitorOn()                                  {}
 func vfMonitorOff()                                 {}
 
@@ -36,6 +38,10 @@ func vfGuardSession(s *UDPSession) {
 	if bc, ok := s.block.(*blockCrypt); ok {
 		vfGuard("encMu", &bc.encMu, &bc.encbuf)
 		vfGuard("decMu", &bc.decMu, &bc.decbuf)
+	}
+	// G5 the FEC encoder has no lock: it is confined to the post-processing goroutine
+	if s.fecEncoder != nil {
+		vfGuardConfined("fecEncoder(confined to postProcess)", "postProcess", s.fecEncoder)
 	}
 }
 
